@@ -413,12 +413,13 @@ pub struct TypeSpec {
     /// extra lines (helper items) rendered after the type inside its module
     pub extra_items: Vec<String>,
     pub noise: Vec<String>,
-    /// `#[repr(u128)]` only: every discriminant is written 2^127 higher than the model's value (the model keeps i128
-    /// arithmetic; the shift is uniform because the first variant is explicit, so the order is the same)
-    pub disc_shift: bool,
+    /// `#[repr(u128)]` only: the discriminants of the first `disc_shift` variants are written 2^127 higher than the
+    /// model's value (the model keeps i128 arithmetic). The first variant and the first unshifted variant are explicit, so
+    /// implicit discriminants never continue across the boundary; `discriminants_u128` gives the real values
+    pub disc_shift: usize,
     /// the definition is produced by a `macro_rules!` invocation: bit 0 = field types arrive as `$t:ty` fragments,
     /// bit 1 = explicit discriminants as `$d:expr` fragments, bit 2 = values of field-level parameters (method paths,
-    /// ranks, Default expressions) as `$v:path` / `$v:expr` fragments, bit 3 = Into targets as `$g:ty` (only with the real compiler; the in-process
+    /// ranks, Default expressions) as `$v:path` / `$v:expr` fragments, bit 3 = Into targets as `$g:ty`, bit 4 = field names as `$f:ident` (only with the real compiler; the in-process
     /// engine always sees the plain definition)
     pub via_macro: u8,
     /// when the type-level Default expression is a bare literal that reaches the type through a user-written `From`
@@ -732,11 +733,21 @@ impl TypeSpec {
                     args.push(f.ty.src.clone());
                 }
             }
+            if self.via_macro & 16 != 0 {
+                // field names supplied by the caller (`$f:ident`): they carry the call site's hygiene while the derive
+                // attribute carries the macro body's
+                for (i, f) in self.all_fields().enumerate() {
+                    if let Some(n) = &f.name {
+                        params.push(format!("$f{i}:ident"));
+                        args.push(n.clone());
+                    }
+                }
+            }
             if self.via_macro & 2 != 0 {
                 for (i, v) in self.variants.iter().enumerate() {
                     if let Some(d) = v.disc {
                         params.push(format!("$d{i}:expr"));
-                        args.push(render_disc(d, v.disc_sp, self.repr.as_deref(), self.disc_shift));
+                        args.push(render_disc(d, v.disc_sp, self.repr.as_deref(), i < self.disc_shift));
                     }
                 }
             }
@@ -916,7 +927,8 @@ impl TypeSpec {
                             let vi = self.variants.iter().position(|w| std::ptr::eq(w, v)).unwrap_or(0);
                             write!(o, " = $d{vi}").unwrap();
                         } else {
-                            write!(o, " = {}", render_disc(d, v.disc_sp, self.repr.as_deref(), self.disc_shift)).unwrap();
+                            let vi = self.variants.iter().position(|w| std::ptr::eq(w, v)).unwrap_or(0);
+                            write!(o, " = {}", render_disc(d, v.disc_sp, self.repr.as_deref(), vi < self.disc_shift)).unwrap();
                         }
                     }
                     writeln!(o, ",").unwrap();
@@ -928,11 +940,16 @@ impl TypeSpec {
     }
 
     fn render_field(&self, f: &FieldSpec, indent: &str, educe_attrs: bool, mac: u8, o: &mut String) {
-        if mac & 1 != 0 {
-            // the field's type is a macro fragment
+        if mac & (1 | 16) != 0 {
+            // the field's type and/or name is a macro fragment
             let idx = self.all_fields().position(|g| std::ptr::eq(g, f)).unwrap_or(0);
             let mut g = f.clone();
-            g.ty.src = format!("$t{idx}");
+            if mac & 1 != 0 {
+                g.ty.src = format!("$t{idx}");
+            }
+            if mac & 16 != 0 && g.name.is_some() {
+                g.name = Some(format!("$f{idx}"));
+            }
             g.render(indent, false, o);
             return;
         }
@@ -1141,6 +1158,11 @@ impl TypeSpec {
             next = d.wrapping_add(1);
         }
         out
+    }
+
+    /// the real discriminant values of a `#[repr(u128)]` enum (see `disc_shift`)
+    pub fn discriminants_u128(&self) -> Vec<u128> {
+        self.discriminants().iter().enumerate().map(|(i, d)| if i < self.disc_shift { (*d as u128).wrapping_add(1u128 << 127) } else { *d as u128 }).collect()
     }
 
     pub fn all_fields(&self) -> impl Iterator<Item = &FieldSpec> {
